@@ -5,6 +5,7 @@
    from source into Gen/T_C03.v).  No proofs in this file. *)
 From PG Require Import Lib.Strs Model.Converter.
 From PG Require Export Gen.T_C03.
+From Coq Require Import DecimalN.
 
 (* the modelled fragment of property schemas *)
 Inductive pschema :=
@@ -13,7 +14,9 @@ Inductive pschema :=
 | PEnum (vals : list str)        (* string enum -> class E(str, Enum) *)
 | PArr (items : pschema)         (* items: scalar / enum / reference *)
 | PRef (c : N)                   (* $ref to / inline object schema c -> dataclass c *)
-| PSelf (c : N).                 (* $ref to the schema being generated: rendered as a quoted name *)
+| PSelf (c : N)                  (* $ref to the schema being generated: rendered as a quoted name *)
+| PMap (v : pschema).            (* object with only `additionalProperties: v` (inline, or $ref to a named map
+                                    schema): a generated wrapper class around dict[str, v] *)
 
 Record prop := { p_name : str; p_required : bool; p_nullable : bool; p_schema : pschema }.
 Record oschema := { s_id : N; s_props : list prop }.
@@ -52,6 +55,7 @@ Fixpoint resolve (p : pschema) : ty :=
   | PArr items => TList (resolve items)
   | PRef c => TData c
   | PSelf c => TFwd c
+  | PMap v => TWrap (resolve v)
   end.
 
 (* ---------- property order: sorted(props, key=(name not in required, name)) ---------- *)
@@ -85,14 +89,16 @@ End Sort.
 Section Gen.
   Variable sanitize : str -> str.      (* NameSanitizer.sanitize_method_name (C20's subject; any function here) *)
 
-  (* nat -> decimal digits *)
-  Fixpoint digits_fuel (fuel : nat) (n : N) (acc : str) : str :=
-    match fuel with
-    | O => acc
-    | S f => let acc' := (48 + n mod 10) :: acc in
-             if n / 10 =? 0 then acc' else digits_fuel f (n / 10) acc'
+  (* str(suffix): decimal digits (Coq's own N -> Decimal.uint conversion, then the digit characters) *)
+  Fixpoint uint_codes (u : Decimal.uint) : str :=
+    match u with
+    | Decimal.Nil => []
+    | Decimal.D0 r => 48 :: uint_codes r | Decimal.D1 r => 49 :: uint_codes r | Decimal.D2 r => 50 :: uint_codes r
+    | Decimal.D3 r => 51 :: uint_codes r | Decimal.D4 r => 52 :: uint_codes r | Decimal.D5 r => 53 :: uint_codes r
+    | Decimal.D6 r => 54 :: uint_codes r | Decimal.D7 r => 55 :: uint_codes r | Decimal.D8 r => 56 :: uint_codes r
+    | Decimal.D9 r => 57 :: uint_codes r
     end.
-  Definition digits (n : N) : str := digits_fuel 40 n [].
+  Definition digits (n : N) : str := uint_codes (N.to_uint n).
 
   (* while field_name in seen: field_name = f"{base}_{suffix}"; suffix += 1   (suffix starts at 2) *)
   Fixpoint fresh_name (fuel : nat) (base : str) (suffix : N) (seen : list str) : str :=
@@ -140,13 +146,13 @@ End Gen.
 Fixpoint ty_has_unhooked (T : ty) : bool :=
   match T with
   | TUuid | TTime => true
-  | TList X | TDict X | TOpt X => ty_has_unhooked X
+  | TList X | TDict X | TOpt X | TWrap X => ty_has_unhooked X
   | _ => false
   end.
 Fixpoint ty_has_fwd (T : ty) : bool :=
   match T with
   | TFwd _ => true
-  | TList X | TDict X | TOpt X => ty_has_fwd X
+  | TList X | TDict X | TOpt X | TWrap X => ty_has_fwd X
   | _ => false
   end.
 Definition guard_F03a (ct : list cls) : bool :=
